@@ -188,3 +188,16 @@ MUTANTS += [
     ("c13_yaml_modes_list", "C13", "config_parser.py", "        modes=tuple(modes),\n", "        modes=tuple(sorted(modes)),\n"),
     ("c13_full_output_off_by_one", "C13", "interface.py", "        levels = list(range(dom.nz + 1))\n", "        levels = list(range(dom.nz))\n"),
 ]
+
+MUTANTS += [
+    # ---- C08
+    ("c08_sin_cos", "C08", "utils.py", "    u = -u_rot * np.sin(wind_dir)\n    v = -u_rot * np.cos(wind_dir)\n", "    u = -u_rot * np.cos(wind_dir)\n    v = -u_rot * np.sin(wind_dir)\n"),
+    ("c08_u_sign", "C08", "utils.py", "    u = -u_rot * np.sin(wind_dir)\n", "    u = u_rot * np.sin(wind_dir)\n"),
+    ("c08_latlon_axes", "C08", "config_parser.py", "    return x, y\n\n\n# --- Dataclasses ---", "    return y, x\n\n\n# --- Dataclasses ---"),
+    ("c08_meas_pt_swapped", "C08", "interface.py", "        meas_pt=(tower.x, tower.y),\n", "        meas_pt=(tower.y, tower.x),\n"),
+    ("c08_radians", "C08", "utils.py", "    wind_dir = np.deg2rad(wind_dir)\n", "    wind_dir = np.asarray(wind_dir, dtype=float)\n"),
+    ("c08_blowing_to", "C08", "utils.py", "    u = -u_rot * np.sin(wind_dir)\n    v = -u_rot * np.cos(wind_dir)\n", "    u = u_rot * np.sin(wind_dir)\n    v = u_rot * np.cos(wind_dir)\n"),
+    ("c08_interface_swaps_uv", "C08", "interface.py", "    u_wind, v_wind = compute_wind_fields(met_step[\"wind_speed\"], met_step[\"wind_dir\"])\n", "    v_wind, u_wind = compute_wind_fields(met_step[\"wind_speed\"], met_step[\"wind_dir\"])\n"),
+    ("c08_footprint_not_reflected", "C08", "solver.py", '        p = fft2(fftp, norm="backward").real  # concentration\n        q = fft2(fftq, norm="backward").real  # kinematic flux\n', '        p = ifft2(fftp, norm="forward").real  # concentration\n        q = ifft2(fftq, norm="forward").real  # kinematic flux\n'),
+    ("c08_offset_10deg", "C08", "utils.py", "    wind_dir = np.deg2rad(wind_dir)\n", "    wind_dir = np.deg2rad(wind_dir + 10.0)\n"),
+]
